@@ -264,6 +264,7 @@ type ObjState struct {
 	CkAlgo  string
 	CkVal   string
 	MP      bool
+	CkFull  bool // multipart upload created with checksum type FULL_OBJECT
 }
 
 func hdrMap(h []KV) map[string]string {
